@@ -204,6 +204,9 @@ func (m *SessionManager) CreateSession(clientMAC, serverMAC net.HardwareAddr) (*
 	if len(m.sessions) >= 65535 {
 		return nil, fmt.Errorf("no free session ID")
 	}
+	if m.nextID == 0 {
+		m.nextID = 1 // 0 is reserved for discovery; the counter wraps to 0 after 65535
+	}
 	for {
 		if _, exists := m.sessions[m.nextID]; !exists {
 			break
